@@ -194,6 +194,49 @@ def run(tier):
         spelled = (TRUE_S if gcp == "true" else FALSE_S)[sp] if gcp != "none" else "-"
         V.violation(f"bool-override:{flag}:{gcp}:{filev}:{feat}:{spelled.lower()}", f"--{flag}: GIT_CONFIG_PARAMETERS says '{spelled}', the file's [delta] section "
                     f"{filev}, an enabled feature {feat}: --show-config reports {bres[f['run']][1]}", {"run": bres[f["run"]][0].to_json()})
+    # trees of custom features (depth up to 3): which section's value wins
+    NAMES = ["A", "B", "C", "D", "E"]
+    njobs = []
+    for i in range(150 if tier == "quick" else 1500):
+        r2 = random.Random(core.seed() * 2699 + i)
+        order = r2.sample(NAMES, len(NAMES))
+        kids = {n: [] for n in NAMES}
+        top = [order[0]] + ([order[1]] if r2.random() < 0.4 else [])
+        placed = list(top)
+        for n in order:
+            if n in placed:
+                continue
+            parent = r2.choice(placed)          # every feature hangs under exactly one other: a tree
+            kids[parent].insert(r2.randrange(len(kids[parent]) + 1), n)
+            placed.append(n)
+        sets = [n for n in NAMES if r2.random() < 0.5]
+        njobs.append((top, kids, sets))
+
+    def none_(ij):
+        i, (top, kids, sets) = ij
+        path = os.path.join(bdir, f"nest{i}")
+        with open(path, "w") as fh:
+            fh.write("[delta]\n    features = " + " ".join("feat" + n for n in top) + "\n")
+            for n in NAMES:
+                fh.write(f'[delta "feat{n}"]\n' + (f"    features = {' '.join('feat' + k for k in kids[n])}\n" if kids[n] else "")
+                         + (f"    minus-style = {100 + NAMES.index(n)}\n" if n in sets else ""))
+        r = core.run_delta(["--config", path, "--show-config"], b"", prefix_args=())
+        m = re.search(r"^\s*minus-style\s*=\s*(\S.*?)\s*$", lexer_strip(r.out), re.M)
+        return r, (m.group(1) if m else None)
+    nres = core.pmap(none_, list(enumerate(njobs)))
+    nevents = []
+    for i, ((top, kids, sets), (r, val)) in enumerate(zip(njobs, nres)):
+        if val is None:
+            raise core.ToolError(f"--show-config did not report minus-style: exit {r.code} {r.err[:200]!r}")
+        shown = NAMES[int(val) - 100] if val.isdigit() and 100 <= int(val) < 100 + len(NAMES) else ""
+        nevents.append({"run": i, "top": top, "kids": kids, "sets": sets, "shown": shown})
+    nfailed, ntr = tlc.validate_trace("Trace_Nested", nevents)
+    log(f"[{PID}] {len(nevents)} trees of features resolved by the real binary and judged by TLC (Trace_Nested), {len(nfailed)} rejected")
+    for f in nfailed:
+        top, kids, sets = njobs[f["run"]]
+        V.violation(f"nested:{top}:{json.dumps(kids, sort_keys=True)}:{sets}", f"[delta] features = {' '.join(top)} with nested lists "
+                    f"{ {k: v for k, v in kids.items() if v} }, option set by {sets}: the value of feature '{nres[f['run']][1]}' is used, the "
+                    f"documented order gives feature {f['want'] or '(none: the default)'}", {"run": nres[f["run"]][0].to_json()})
     rc = V.finish()
     core.write_evidence(PID, tier, "model_checking", {
         "states": mc.distinct, "transitions": mc.generated, "traces_validated_against_impl": len(events),
